@@ -260,10 +260,25 @@ func (c *c12Run) fakeSend(fd int, m string, own *c12Owned) error {
 		return hdr(3, typeAckShareMemory)
 	case "other":
 		return hdr(vAtoi(f[2]), eventType(vAtoi(f[1])))
+	case "mmemfdx":
+		// memfd metadata naming a buffer that is not known in this process (the descriptors decide what gets mapped)
+		v := vAtoi(f[1])
+		if err := c.ownMemory(MemMapTypeMemFd, own); err != nil {
+			return err
+		}
+		tmp := &Session{communicationVersion: uint8(v), queueManager: own.qm, bufferManager: &bufferManager{path: c.prefix + "_unknown_buffer"}}
+		return blockWriteFull(fd, tmp.generateShmMetadata(typeShareMemoryByMemfd))
 	case "mfile", "mmemfd":
 		v := vAtoi(f[1])
 		var data []byte
-		if f[0] == "mfile" && f[2] == "0" {
+		if f[0] == "mfile" && f[2] == "2" {
+			// the queue can be mapped, the buffer cannot: what was mapped first must be released again
+			if err := c.ownMemory(MemMapTypeDevShmFile, own); err != nil {
+				return err
+			}
+			tmp := &Session{communicationVersion: uint8(v), queueManager: own.qm, bufferManager: &bufferManager{path: c.prefix + "_nosuch_buffer"}}
+			data = tmp.generateShmMetadata(typeShareMemoryByFilePath)
+		} else if f[0] == "mfile" && f[2] == "0" {
 			tmp := &Session{communicationVersion: uint8(v), queueManager: &queueManager{path: c.prefix + "_nosuch_queue"}, bufferManager: &bufferManager{path: c.prefix + "_nosuch_buffer"}}
 			data = tmp.generateShmMetadata(typeShareMemoryByFilePath)
 		} else {
@@ -285,6 +300,16 @@ func (c *c12Run) fakeSend(fd int, m string, own *c12Owned) error {
 				return err
 			}
 			return sendFd(fd, syscall.UnixRights(own.bm.memFd, own.qm.memFd))
+		}
+		if f[1] == "2" {
+			// a mappable queue descriptor and an unmappable buffer descriptor
+			if err := c.ownMemory(MemMapTypeMemFd, own); err != nil {
+				return err
+			}
+			nb, _ := syscall.Open("/dev/null", syscall.O_RDWR, 0)
+			err := sendFd(fd, syscall.UnixRights(nb, own.qm.memFd))
+			syscall.Close(nb)
+			return err
 		}
 		n1, _ := syscall.Open("/dev/null", syscall.O_RDWR, 0)
 		n2, _ := syscall.Open("/dev/null", syscall.O_RDWR, 0)
@@ -575,14 +600,17 @@ func c12Gen(r *rand.Rand, tier string, idx int) []string {
 		k := r.Intn(len(ms) + 1)
 		ms = ms[:k] // the peer stops after k messages
 		if r.Intn(3) == 0 && len(ms) > 0 {
-			alt := []string{"exver:2", "exver:3", "exver:4", "mfile:2:1", "mfile:2:0", "mfile:3:1", "mfile:3:0", "mmemfd:3", "ackfd", "ackshm", "fds:0", "other:1:3", "other:2:2", "other:9:5"}
+			alt := []string{"exver:2", "exver:3", "exver:4", "mfile:2:1", "mfile:2:0", "mfile:2:2", "mfile:3:1", "mfile:3:0", "mfile:3:2", "mmemfd:3", "ackfd", "ackshm", "fds:0", "fds:2", "other:1:3", "other:2:2", "other:9:5"}
 			a := alt[r.Intn(len(alt))]
 			// descriptors travel without a header: only where the server is about to receive them
-			if a != "fds:0" || (len(ms) == 3 && ms[0] == "exver:3" && ms[1] == "mmemfd:3") {
+			if !strings.HasPrefix(a, "fds:") || (len(ms) == 3 && ms[0] == "exver:3" && ms[1] == "mmemfd:3") {
 				ms[len(ms)-1] = a
 			}
 		}
 		return ms
+	}
+	if r.Intn(12) == 0 {
+		return []string{"srv " + tail() + " exver:3 mmemfdx:3 fds:2"}
 	}
 	switch r.Intn(8) {
 	case 0:
